@@ -249,6 +249,7 @@ let run_case (line:str) : str =
     dg (fs_get ap s) ^ " " ^ dg (fs_get tp s)
   | "kill" -> "safe"
   | "metasched" -> "ok" (* metadata / TileJSON requests under replacement: judged by the oracle (the executable model has tile requests) *)
+  | "corruptleaf" -> "ok" (* an archive with unparsable leaf directories asked repeatedly: the cache must not change the answer; oracle only *)
   | "backend" -> "ok" (* sequential requests around replacements on the real local-directory / HTTP buckets: oracle only *)
   | "micro" -> "ok" (* C08_single_version_tile holds for every interleaving of loop messages; the run checks the implementation alone *)
   | "fill" ->
@@ -348,6 +349,7 @@ let run_case (line:str) : str =
     (match file_for_key root (bytes_of_hex (tok ts)) with
      | None -> "refused"
      | Some segs -> "local " ^ hex_of_bytes (L.concat_map (fun sg -> n_of_int 47 :: sg) segs))
+  | "adapter" -> "ok" (* the cloud adapter over a stand-in provider driver: judged by the oracle (exact bytes, tags, stale-tag refusal, missing object) *)
   | "serve" -> "confined"
   | "read" ->
     let backend = tok ts in let objt = tok ts in
